@@ -11,15 +11,47 @@ import (
 	"golang.org/x/tools/go/ssa"
 )
 
-var bigEvalCache = map[*ssa.Function]*BigEval{}
+var bigEvalCache = map[string]*BigEval{}
 
 func (P *Program) bigEval(fn *ssa.Function) *BigEval {
-	if be, ok := bigEvalCache[fn]; ok {
+	key := fmt.Sprintf("%p", fn) + bindingSig(fn)
+	if be, ok := bigEvalCache[key]; ok {
 		return be
 	}
 	be := NewBigEval(P, fn)
-	bigEvalCache[fn] = be
+	bigEvalCache[key] = be
 	return be
+}
+
+// at / ret / use: term lookups that follow the instruction into its own function (a matcher written for
+// function F may be evaluated on an atom inside a helper that F calls).
+func (be *BigEval) at(c *ssa.Call) []Term {
+	if c == nil {
+		return nil
+	}
+	if c.Parent() == be.Fn {
+		return be.At[c]
+	}
+	return be.P.bigEval(c.Parent()).At[c]
+}
+
+func (be *BigEval) ret(c *ssa.Call) (Term, bool) {
+	if c == nil {
+		return Term{}, false
+	}
+	if c.Parent() == be.Fn {
+		t, ok := be.Ret[c]
+		return t, ok
+	}
+	t, ok := be.P.bigEval(c.Parent()).Ret[c]
+	return t, ok
+}
+
+func (be *BigEval) forFn(fn *ssa.Function) *BigEval {
+	if fn == nil || fn == be.Fn {
+		return be
+	}
+	return be.P.bigEval(fn)
 }
 
 // guardOf parses the atom as a guard with terms evaluated in the atom's function.
